@@ -81,7 +81,6 @@ func itoa(i int) string {
 	return string(b)
 }
 
-
 var bareOps = []string{">=", "<=", ">", "<", "=", "!=", "==", "~>", "~=", "^", "~", "<>", ">>", "<<", "===", "*", "x", "-", "||", "and", "AND", ",", "[", "(", "]", ")", "@", "@dev"}
 
 // HostileRange applies TOKEN-level damage to an intended-valid range of the ecosystem: an operator that lost
@@ -96,11 +95,15 @@ func HostileRange(eco string, r *rand.Rand) string {
 		base = RangeOne(eco, r) + seps[r.IntN(len(seps))] + RangeOne(eco, r)
 	}
 	toks := strings.Fields(base)
+	ops := bareOps
+	if r.IntN(4) == 0 { // a keyword or symbol that is a literal of this ecosystem's own sources
+		ops = []string{EcoWord(eco, r), strings.ToUpper(EcoWord(eco, r)), EcoNum(eco, r), "@" + EcoWord(eco, r)}
+	}
 	switch r.IntN(8) {
 	case 0: // append a bare operator
-		return base + seps[r.IntN(len(seps))] + bareOps[r.IntN(len(bareOps))]
+		return base + seps[r.IntN(len(seps))] + ops[r.IntN(len(ops))]
 	case 1: // prepend a bare operator
-		return bareOps[r.IntN(len(bareOps))] + seps[r.IntN(len(seps))] + base
+		return ops[r.IntN(len(ops))] + seps[r.IntN(len(seps))] + base
 	case 2: // strip the operand of the last token
 		if len(toks) > 0 {
 			t := toks[len(toks)-1]
@@ -118,7 +121,7 @@ func HostileRange(eco string, r *rand.Rand) string {
 		}
 	case 4: // replace a token by a bare operator
 		if len(toks) > 0 {
-			toks[r.IntN(len(toks))] = bareOps[r.IntN(len(bareOps))]
+			toks[r.IntN(len(toks))] = ops[r.IntN(len(ops))]
 			return strings.Join(toks, " ")
 		}
 	case 5: // double a separator / trailing separator
